@@ -127,6 +127,30 @@ def transform(rel, text):
     return text, fired
 
 
+# Mechanical function extraction: the exact text of one function definition is copied (signature to
+# matching closing brace) into src/gen/<name>.inc so that a harness can compile that function alone
+# when the rest of its translation unit cannot share a TU with the harness.  Nothing is rewritten.
+EXTRACT = [
+    ("core/AsmContext.cpp", r"^void AsmContext::set_cpu\(int index\)\s*\{", "AsmContext_set_cpu.inc"),
+]
+
+
+def extract_function(text, sig_re):
+    m = re.search(sig_re, text, re.M)
+    if not m:
+        return None
+    i = text.index("{", m.start())
+    depth = 0
+    for j in range(i, len(text)):
+        if text[j] == "{":
+            depth += 1
+        elif text[j] == "}":
+            depth -= 1
+            if depth == 0:
+                return text[m.start():j + 1] + "\n"
+    return None
+
+
 def prep(repo, dst, t9_extra=None):
     if t9_extra:
         for k, v in t9_extra.items():
@@ -154,6 +178,29 @@ def prep(repo, dst, t9_extra=None):
                     fh.write(new)
                 if fired:
                     report[rel] = fired
+    gen = os.path.join(src_root, "gen")
+    os.makedirs(gen, exist_ok=True)
+    for rel, sig, out in EXTRACT:
+        with open(os.path.join(src_root, rel), errors="surrogateescape") as fh:
+            body = extract_function(fh.read(), sig)
+        if body is not None:
+            with open(os.path.join(gen, out), "w", errors="surrogateescape") as fh:
+                fh.write("/* extracted verbatim from %s by tools/prep_tree.py */\n" % rel + body)
+            report.setdefault(rel, {})["X1"] = 1
+    # encoders that use the pass-1 flag-byte protocol (C02/C13 lemma): source scan on every run
+    protos = []
+    adir = os.path.join(src_root, "asm")
+    for f in sorted(os.listdir(adir)):
+        if not f.endswith(".cpp"):
+            continue
+        with open(os.path.join(adir, f), errors="surrogateescape") as fh:
+            t = fh.read()
+        if re.search(r"memory_write\(\s*asm_context->address\s*,", t):
+            protos += re.findall(r"^int (parse_instruction_\w+)\(", t, re.M)
+    with open(os.path.join(gen, "protocol_encoders.inc"), "w") as fh:
+        fh.write("/* generated by tools/prep_tree.py: encoders containing memory_write(asm_context->address, ...) */\n")
+        for n in protos:
+            fh.write("PROTO(%s)\n" % n)
     totals = {}
     for rel, fired in report.items():
         for k, v in fired.items():
